@@ -223,6 +223,9 @@ Scenario generate(const std::string& prop, uint64_t seed, const std::string& tie
     }
 
     sc.height = int(pickWeighted(r, {{1, 3}, {2, 7}, {3, 25}, {4, 32}, {5, 25}, {6, 8}}));
+    // tall, sparse trees: few clustered particles, space indexes beyond 32 bits at the deep levels (index = 3 bits per level)
+    bool tall = false;
+    if (!numeric && prop != "C12" && r.chance(0.07)) { sc.height = 7 + int(r.below(12)); tall = true; }
     // box
     const double scales[] = {1e-3, 0.1, 1.0, 1.0, 1.0, 7.5, 1e3};
     const double w0 = scales[r.below(7)] * (0.5 + r.unit());
@@ -234,12 +237,14 @@ Scenario generate(const std::string& prop, uint64_t seed, const std::string& tie
     if (sc.isFloat()) for (int d = 0; d < 3; ++d) { sc.width[size_t(d)] = double(float(sc.width[size_t(d)])); sc.centre[size_t(d)] = double(float(sc.centre[size_t(d)])); }
     // particles
     long maxN = sc.height >= 6 ? 120 : (sc.height == 5 ? 220 : 400);
+    if (tall) maxN = 48;
     if (prop == "C12") { maxN = 120; if (sc.height > 5) sc.height = 5; }
     if (prop == "C13") maxN = 200;
     if (numeric) maxN = 150;
     const long n = 1 + long(std::pow(r.unit(), 1.7) * double(maxN - 1));
     const double lo[3] = {0, 0, 0}, hi[3] = {1, 1, 1};
-    const int kind = int(r.below(8));
+    int kind = int(r.below(8));
+    if (tall) { static const int tk[] = {1, 3, 4, 5, 1, 4, 2, 0}; kind = tk[r.below(8)]; }
     if (!sc.isTsm()) {
         genCloud(r, kind, n, sc.height, sc.src, lo, hi);
     } else {
